@@ -198,13 +198,13 @@ def handleApc : Handler
               if cmpVerdict != "ok" then cmpVerdict else
               -- (1) applier model: record by record, in incoming order
               if ib.length != ab.length then mismatch "applier-records" (toString ib.length) (toString ab.length)
-              else allOk (cb.map fun c =>
-                match matchIdx apc.multi ib c with
-                | some j =>
-                  match ib[j]?, ab[j]? with
-                  | some i, some a => applierCheck sch zeroRec c i a
-                  | _, _ => "ok"
-                | none => "ok")
+              else
+                match assign apc.multi ib [] cb with
+                | some idxs => allOk ((cb.zip idxs).map fun (c, j) =>
+                    match ib[j]?, ab[j]? with
+                    | some i, some a => applierCheck sch zeroRec c i a
+                    | _, _ => "ok")
+                | none => "ok"
             | _, _, _ => if cmpVerdict != "ok" then cmpVerdict else badInput "multi-docs"
           else
             match asMap curJ, asMap incJ, asMap afterJ with
